@@ -165,6 +165,17 @@ class Call2Mixin:
     for exc in c.may_raise:
       if not self.spec_mode and self.branch(self.fresh_bool(f'{c.short}.raises.{exc}')):
         self.raise_(exc, VStr(f'{c.short} may raise {exc}'))
+    for exc, cond in c.raises_unless.items():
+      ct = self.spec(cond, env)
+      sv = z3.Solver()
+      sv.set('timeout', 2000)
+      for f in self.path.assumed:
+        sv.add(f)
+      sv.add(z3.Not(ct))
+      if sv.check() != z3.unsat:        # not guaranteed for every element: the call may raise
+        if not self.spec_mode and self.branch(self.fresh_bool(f'{c.short}.raises.{exc}')):
+          self.raise_(exc, VStr(f'{c.short} may raise {exc}'))
+      self.assume(ct)                   # a normal return implies the condition
     # frame: havoc what the callee may modify
     for path in c.modifies:
       self.havoc_path(env, path)
